@@ -540,6 +540,24 @@ ORDER_BREAKING = {"set", "frozenset", "sorted", "reversed", "fromkeys", "dict.fr
 MUTATORS = {"append", "extend", "insert", "remove", "pop", "clear", "sort", "reverse", "update", "add", "discard", "setdefault", "popitem"}
 
 
+def check_walk_is_per_directory(ctx: Ctx) -> None:
+    """Everything the directory walk decides for one directory is computed from that directory (and memo tables keyed by
+    directory): no variable carries ignore rules from the directories visited before."""
+    from .common import unexpected_carried
+
+    prog = ctx.prog
+    walk = _method(ctx, "_walk_directory")
+    flow = prog.flow(walk)
+    loops = [h for h in flow.cfg.nodes if h.kind == "for" and any(isinstance(x, ast.Attribute) and x.attr == "walk" for x in ast.walk(h.ast.iter))]
+    ctx.require("R-GITIGNORE", "os.walk loop of the directory traversal", len(loops), 1)
+    for h in loops:
+        carried, allowed = unexpected_carried(prog, walk, h)
+        bad = sorted(carried - allowed)
+        ctx.ob("R-GITIGNORE-G6", f"{walk.qual} :: nothing is carried from one directory to the next", not bad,
+               "the .gitignore chain (and every other filter) that applies to a directory must be derived from that directory: a list kept "
+               f"and patched across os.walk iterations applies the rules of subtrees already left; carried: {bad or 'none'}", where(walk, h))
+
+
 def check_cached_values_not_mutated(ctx: Ctx) -> None:
     """A value that lives in a memo table (or comes out of a memoising method) is shared by every later hit: it must not be
     changed in place. (Typestate: cached -> read-only.)"""
